@@ -1458,9 +1458,9 @@ func (x *xl) accArg(a ast.Expr) (string, bool) {
 	return "", false
 }
 
-// funcValueCall: a call `fn(args)` of a function-valued parameter / local variable (a visitor, a predicate):
+// domFuncValueCall (DOM mode; the plain mode has funcValueCall in translate_rec.go, a PURE function): a call `fn(args)` of a function-valued parameter / local variable (a visitor, a predicate):
 // the function is a Lean parameter of type `… → Go.Res …`
-func (x *xl) funcValueCall(c *ast.CallExpr, id *ast.Ident) ([]string, string, bool, error) {
+func (x *xl) domFuncValueCall(c *ast.CallExpr, id *ast.Ident) ([]string, string, bool, error) {
 	v, ok := x.p.info.Uses[id].(*types.Var)
 	if !ok {
 		return nil, "", false, nil
